@@ -4,7 +4,7 @@ Reads /tmp/vs_results.txt lines: "<Cxx-x> [via Cyy:] {json}" produced by tools/v
 import json, os, re, shutil, sys
 res = {}
 for line in open("/tmp/vs_results.txt"):
-    m = re.match(r"(C\d\d)-([a-j])(?: via (C\d\d):)? (\{.*\})", line.strip())
+    m = re.match(r"(C\d\d)-([a-l])(?: via (C\d\d):)? (\{.*\})", line.strip())
     if not m:
         continue
     pid, x, via, js = m.groups()
